@@ -30,16 +30,17 @@ ID = "C03"
 LEAN_MODULES = ["PyrollProps.C03"]
 MODEL = "c03"
 MODEL_MODULES = ["PyrollModel.Gen.C03", "PyrollModel.Gen.C03Groove", "PyrollModel.GrooveWFDriver"]
-RULE = ("for each of the 23 public parametric groove classes x each admissible defining subset x {direct constructor, "
-        "by-name factory under a random documented spelling}: (a) a feasibility-biased stream - a feasible geometry is "
-        "drawn forwards (angles, radii, flank length; pad angle in {0, 30, 45, random}; scale log-uniform over 6 decades) "
-        "and with probability 0.45 one or two parameters are then moved by a log-uniform factor, so that about 60 % of "
-        "the draws construct and the rest sit around the feasibility boundary; (b) an infeasible/boundary stream - one "
-        "mutation of a feasible draw out of {zero, negative, NaN, +inf, negative flank dimension, flank angle >= 90 deg "
-        "or <= 0, depth too small for the radii, radius too large for the width, defining value dropped, extra "
-        "defining value, usable_width == ground_width}. A case = one constructor call; non-trivial = an object came "
-        "back and was checked, or the input was unrealisable on its face and had to be rejected; distinct by class, "
-        "subset, route and rounded parameters.")
+RULE = ("for each of the 21 public parametric groove classes x each admissible defining subset (75 combinations; 60 draws each in "
+        "the quick tier, 180 for single-subset classes) x {direct constructor 70 %, by-name factory under a random documented "
+        "spelling 30 %}: a feasible geometry is drawn forwards (angles, radii, flank length; pad angle in {0, 30, 45, random}; "
+        "scale log-uniform over 6 decades) and handed over (a) as drawn 35 %, (b) feasibility-biased: 1-3 length parameters "
+        "moved by a factor 10^U(-1.5, 1.5) 45 % - about 60 % of (a)+(b) construct, the rest sit around the feasibility "
+        "boundary -, (c) infeasible/boundary 20 %: one mutation out of {zero, negative, NaN, +inf, negative flank dimension, "
+        "flank angle 0 / 90 deg / beyond, tip angle > 180 deg, depth too small for the radii, radius too large for the width, "
+        "1e-12 / 1e12 scaling of one length, defining value or required parameter dropped, surplus defining value (consistent or "
+        "contradictory), usable_width == ground_width}. A case = one constructor call; non-trivial = an object came back and "
+        "was checked, or the input was unrealisable on its face and had to be rejected; distinct by class, subset, route, stream "
+        "and rounded parameters. Plus ~450 ASCII names for the factory's normalisation and 6 spline shape cases.")
 ASSUMPTIONS = [
     "IEEE rounding: theorems are over the reals; the Float run of the model is compared with the real junctions/vertices "
     "at rtol 1e-9 (relative to the groove size)",
@@ -233,6 +234,8 @@ def draw(rng, cname):
         l = r1 * math.tan((fa + p * DEG) / 2)
         depth = r3 - (r3 - r2) * math.cos(a3 - a4) - r2 * math.cos(fa) + l * math.sin(fa)
         half = (r3 - r2) * math.sin(a3 - a4) + r2 * math.sin(fa) + l * math.cos(fa) + (r3 + r4) * math.sin(a4)
+        if indent > 0.8 * depth:           # the centre must stay above the roll face: shrink the constriction
+            return draw(rng, cname)
         fixed = dict(r1=r1, r2=r2, r3=r3, r4=r4, depth=depth, usable_width=2 * half + egw, indent=indent,
                      even_ground_width=egw, pad_angle=p, **ext)
         return fixed, {}, dict(scale=s, fa=fa)
@@ -250,6 +253,9 @@ def draw(rng, cname):
             indent = (r2 + r4) * (1 - math.cos(rng.uniform(3, 40) * DEG))
             fixed.update(r4=r4, indent=indent)
             c4 = (r4 + r2) * math.sin(math.acos(1 - indent / (r2 + r4)))
+        if r2 * (1 - math.cos(fa)) + r1 * math.tan((fa + p * DEG) / 2) * math.sin(fa) > 0.9 * (depth - fixed.get("indent", 0.0)) \
+                or fixed.get("indent", 0.0) > 0.8 * depth:
+            return draw(rng, cname)        # the two fillets must fit into the depth (positive flank length)
         gw = egw + 2 * (c4 + r2 * math.tan(fa / 2))
         uw = gw + 2 * depth / math.tan(fa)
         vals = dict(ground_width=gw, even_ground_width=egw, usable_width=uw, flank_angle=fa / DEG)
@@ -278,6 +284,8 @@ def draw(rng, cname):
             depth = s
             r2 = s * rng.uniform(0.02, 0.4)
             egw = s * rng.uniform(0.1, 4)
+            if r2 * (1 - math.cos(fa)) + r1 * math.tan((fa + p) / 2) * math.sin(fa) > 0.9 * depth:
+                return draw(rng, cname)
             uw = egw + 2 * r2 * math.tan(fa / 2) + 2 * depth / math.tan(fa)
             fixed = dict(r1=r1, r2=r2, even_ground_width=egw, pad_angle=p, **ext)
         else:
@@ -296,6 +304,8 @@ def draw(rng, cname):
             depth = r3 - (r3 - r2) * math.cos(a3 - a4) - r2 * math.cos(fa) + (fl + l) * math.sin(fa)
             half = (r3 - r2) * math.sin(a3 - a4) + r2 * math.sin(fa) + (fl + l) * math.cos(fa) + (r3 + r4) * math.sin(a4)
             uw = 2 * half + egw
+            if indent > 0.8 * depth:
+                return draw(rng, cname)
             fixed = dict(r1=r1, r2=r2, r3=r3, alpha3=a3, even_ground_width=egw, pad_angle=p, **ext)
             if kind == "r34":
                 fixed.update(r4=r4, alpha4=a4, indent=indent)
@@ -315,8 +325,8 @@ def perturb(rng, kwargs):
     """move one or two length parameters by a log-uniform factor: lands around the feasibility boundary"""
     kw = dict(kwargs)
     keys = [k for k in kw if k in LENGTHS and k != "pad" and kw[k]]
-    for k in rng.sample(keys, min(len(keys), rng.choice([1, 1, 2]))):
-        kw[k] = kw[k] * 10 ** rng.uniform(-1, 1) if rng.random() < 0.7 else kw[k] * rng.uniform(0.7, 1.4)
+    for k in rng.sample(keys, min(len(keys), rng.choice([1, 2, 2, 3]))):
+        kw[k] = kw[k] * 10 ** rng.uniform(-1.5, 1.5) if rng.random() < 0.75 else kw[k] * rng.uniform(0.7, 1.4)
     return kw
 
 
@@ -360,6 +370,8 @@ def infeasible(rng, cname, subset, fixed, vals):
             kw[k] = rng.choice([180.0 * (1 + 1e-9), rng.uniform(180, 350)])
         else:
             kw[k] = rng.choice([0.0, full, full * rng.uniform(1.0, 1.9), full * (1 + 1e-9)])
+            if kw[k] == 0.0 and not kw.get("depth"):
+                return kw, kind + ":flat", False      # flank angle 0 with the depth left open is the flat groove of depth 0
         return kw, kind, True
     if kind == "depth-too-small":
         k = "depth" if "depth" in kw else ("tip_depth" if "tip_depth" in kw else None)
@@ -379,9 +391,10 @@ def infeasible(rng, cname, subset, fixed, vals):
         kw["ground_width"] = kw["usable_width"]
         return kw, kind, False
     if kind == "too-few":
-        drop = [k for k in subset] or [k for k in kw if k in LENGTHS and k not in ("pad", "r1")]
-        if cname == "FlatGroove":
-            drop = ["usable_width"]
+        import inspect
+        required = [n for n, q in inspect.signature(_cls(cname).__init__).parameters.items()
+                    if q.default is inspect.Parameter.empty and n in kw]
+        drop = [k for k in subset] or required      # a defining value, or (single-subset classes) a required parameter
         k = rng.choice(drop)
         del kw[k]
         if k in FLANK and cname in ("FalseRoundGroove", "Oval3RadiiFlankedGroove"):
@@ -397,7 +410,7 @@ def infeasible(rng, cname, subset, fixed, vals):
             kw["ground_width_extra"] = 1.0
             return kw, kind + ":unknown-keyword", True
         k = rng.choice(sorted(set(extra)))
-        kw[k] = vals[k]             # the CONSISTENT value: over-determined, but not contradictory
+        kw[k] = vals[k] if rng.random() < 0.5 else vals[k] * rng.uniform(0.3, 3)    # consistent or contradictory surplus
         return kw, kind, True
     raise KeyError(kind)
 
@@ -515,7 +528,10 @@ def check_wellformed(ctx, cname, tag, kwargs, g, route):
         return bad
     z, y = pts[:, 0], pts[:, 1]
     size = max(float(np.abs(z).max()), float(np.abs(y).max()), abs(depth), 1e-300)
-    eps = 1e-7 * size
+    # rounding allowance: 1e-7 x size (100 x the validator's relative tolerance) + cancellation in y = yc +- sqrt(r^2 - dz^2) for
+    # an arc whose radius dwarfs the groove (absolute error of a few ulp(r))
+    rmax = max([abs(float(getattr(g, k, 0.0) or 0.0)) for k in ("r1", "r2", "r3", "r4")] + [0.0])
+    eps = 1e-7 * size + (8 * math.ulp(rmax) if math.isfinite(rmax) else 0.0)
     # mirror symmetry about the groove centre: the vertex list read backwards is its own mirror image, centre vertex on z = 0
     if len(pts) % 2 != 1 or not (np.array_equal(z, -z[::-1]) and np.array_equal(y, y[::-1])):
         viol("not-symmetric", "the contour is not mirror-symmetric about z = 0")
@@ -574,12 +590,32 @@ def check_wellformed(ctx, cname, tag, kwargs, g, route):
         if cname in RADIANS:
             tolf = 2e-3 * depth / sfa + eps
         else:
-            tolf = (2e-6 if cname in ITERATIVE else 1e-9) / sfa ** 2 * size + (1e-8 + 1e-5 * size if True else 0)
+            tolf = (2e-6 if cname in ITERATIVE else 1e-9) / sfa ** 2 * size + (1e-8 + 1e-5 * size)   # + np.isclose slack
         right = pts[len(pts) // 2:]
         s = (right[:, 0] - uw / 2) * math.sin(fa) + right[:, 1] * math.cos(fa)      # signed distance to the flank line
-        if not (np.abs(s).min() <= tolf):
+        i = int(np.argmin(np.abs(s)))
+        # The code drops a junction vertex when `np.isclose` finds the adjoining piece degenerate (no flank AND an r2 arc of
+        # negligible extent): the polyline then passes the flank line between two samples of the fillet r1 (resp. of r2).  A
+        # circle of radius r leaves its tangent by chord^2 / (2 r): discretisation allowance, only when junction 3/4 is absent.
+        j3, j4 = (float(g.z3), float(g.y3)), (float(g.z4), float(g.y4))
+        present = any(abs(right[:, 0] - j[0]).min() <= eps and np.hypot(right[:, 0] - j[0], right[:, 1] - j[1]).min() <= eps
+                      for j in (j3, j4))
+        if not present:
+            cands = [math.hypot(right[i, 0] - j[0], right[i, 1] - j[1]) ** 2 / (2 * r) * 1.05
+                     for j, r in ((j3, float(g.r1)), (j4, float(g.r2))) if r > 0]
+            if cands:
+                tolf += min(cands)
+        # a flank of positive length is the straight piece between junction 3 and the next vertex towards the centre
+        # (junction 4): that vertex must lie on the same line - neither a step up nor a step down at the end of the r2 arc
+        d3 = np.hypot(right[:, 0] - j3[0], right[:, 1] - j3[1])
+        i3 = int(np.argmin(d3))
+        if d3[i3] <= eps and i3 >= 1 and abs(s[i3]) <= tolf and not abs(s[i3 - 1]) <= tolf:
+            viol("flank-step", f"the flank does not run along the flank line: the vertex after junction 3 towards the centre, "
+                 f"({right[i3 - 1, 0]}, {right[i3 - 1, 1]}), is {float(s[i3 - 1])} off the line through (usable_width/2, 0) at the "
+                 f"flank angle (allowance {tolf})")
+        if not (abs(s[i]) <= tolf):
             viol("flank-misses-face", f"the flank line through (usable_width/2, 0) at the flank angle {fa} does not touch "
-                 f"the contour (closest vertex {float(np.abs(s).min())} away, allowance {tolf})")
+                 f"the contour (closest vertex {float(abs(s[i]))} away, allowance {tolf})")
     # cross-section polygon = the contour closed by the face
     try:
         area = float(g.cross_section.area)
@@ -602,7 +638,9 @@ def check_wellformed(ctx, cname, tag, kwargs, g, route):
         elif k == "depth" and cname in BOX_PLAIN + BOX_CONSTR:
             # the box-like classes hand (ground_width, usable_width, flank_angle) to the generic constructor, which
             # recomputes depth = (uw - gw)/2 tan(fa): rounding of the widths is amplified by tan(fa) (cancellation)
-            lim = 1e-9 * abs(v) + 8 * math.ulp(max(abs(uw), abs(float(g.ground_width)))) * abs(math.tan(fa))
+            t = abs(math.tan(fa))
+            lim = 1e-9 * abs(v) + 8 * math.ulp(max(abs(uw), abs(float(g.ground_width)))) * t \
+                + 8 * abs(v) * math.ulp(fa) * (t + 1 / max(t, 1e-300))
         else:
             lim = 1e-9 * max(abs(v), 1e-300)
         if have is None or not (abs(have - v) <= lim):
@@ -922,6 +960,14 @@ def _name_stream(ctx, corr, n):
     alphabet = "abRG_-. \tox3"
     pieces = ["round", "Round", "false", "oval", "groove", "Groove", "box", "3", "radii", "upset", "flat"]
     names = list(ADVERSARIAL_NAMES)
+    for c in ALL_CLASSES + ["SplineGroove", "GrooveBase"]:
+        for _ in range(3 if n else 0):
+            nm = spelling(rng, c)[0]
+            names.append(nm)
+            if nm and rng.random() < 0.5:               # one edit: dropped / doubled / replaced character
+                i = rng.randrange(len(nm))
+                names.append(rng.choice([nm[:i] + nm[i + 1:], nm[:i] + nm[i] + nm[i:], nm[:i] + rng.choice(alphabet) + nm[i + 1:],
+                                         nm + rng.choice("_ -."), rng.choice("_ -.") + nm]))
     for _ in range(n):
         if rng.random() < 0.5:
             names.append("".join(rng.choice(alphabet) for _ in range(rng.randint(0, 8))))
@@ -932,9 +978,9 @@ def _name_stream(ctx, corr, n):
         pass
 
     def _stub(cname):                       # which class does the factory instantiate?  (no constructor runs)
-        def make(**kwargs):
+        def new(cls, *a, **k):
             raise _Found(cname)
-        return make
+        return type(cname, (G.GrooveBase,), {"__new__": new})
 
     saved = {c: getattr(G, c) for c in G.__all__ if isinstance(getattr(G, c), type)}
     for c in saved:
@@ -1002,25 +1048,36 @@ def run(ctx):
             fixed, vals, _ = draw(random_for(cname), cname)
             kw = dict(fixed, **{k: vals[k] for k in subsets_of(cname)[0]})
             run_case(ctx, corr, log, cname, subsets_of(cname)[0], kw, "feasible", False, via=via, kind=kind)
-        n0 = ctx.budget(36, 900)
+        n0 = ctx.budget(60, 1500)
         for cname in ALL_CLASSES:
             subsets = subsets_of(cname)
             for subset in subsets:
                 n = n0 * (3 if len(subsets) == 1 else 1)
+                feasible_drawn = feasible_built = 0
                 for i in range(n):
                     fixed, vals, info = draw(rng, cname)
                     kw = dict(fixed, **{k: vals[k] for k in subset})
                     r = rng.random()
                     stream, must = "feasible", False
-                    if r < 0.25:
+                    if r < 0.45:
                         kw, stream = perturb(rng, kw), "perturbed"
-                    elif r < 0.45:
+                    elif r < 0.65:
                         kw, k, must = infeasible(rng, cname, subset, fixed, vals)
                         stream = "infeasible:" + k.split(":")[0]
                     via = kind = None
                     if rng.random() < 0.3:
                         via, kind = spelling(rng, cname)
-                    run_case(ctx, corr, log, cname, subset, kw, stream, must, via=via, kind=kind)
+                    g = run_case(ctx, corr, log, cname, subset, kw, stream, must, via=via, kind=kind)
+                    if stream == "feasible" and kind != "exact":
+                        feasible_drawn += 1
+                        feasible_built += g is not None
+                    if len(corr.lines) >= 3000:
+                        corr.flush()            # batches: the expectations hold the groove objects
+                if feasible_drawn >= 8 and feasible_built < 0.6 * feasible_drawn:
+                    # the unperturbed draws are realisable by construction; on the repaired tree every class/subset builds
+                    # > 90 % of them (the rest: non-convergence of hybr, IndexError of the raster search)
+                    ctx.disagreement(f"{cname} rejects {feasible_drawn - feasible_built} of {feasible_drawn} feasible "
+                                     f"geometries given as {subset}", {"class": cname, "subset": list(subset)})
     if ctx.model_available:
         _name_stream(ctx, corr, ctx.budget(300, 6000))
         _spline_stream(ctx, corr)
